@@ -150,3 +150,20 @@ def result_bool(vm, r):
     if isinstance(v, SymEnum): raise Unmodelled('symbolic result kind')
     if v.variant != 2: raise Unmodelled(f'operator returned non-boolean {v!r}')
     return v.fields[0]
+
+
+def freeze_val(vm, v):
+    """capture the *current* structure of a value whose top-level kind is already decided, so that it can be described
+    under a model later even if the containers are mutated in between (elements are captured by identity)"""
+    from ..std import conc
+    if isinstance(v, Ref): v = vm.ref_get(v)
+    top = conc(vm, v) if isinstance(v, SymEnum) else v
+    if top.variant != 5: return lambda m: val_to_json(vm, v, m)
+    arr = top.fields[0].box.cell.v
+    items = list(arr.fields[0].fields[0].items)
+    ents = [(e[0], e[1]) for e in arr.fields[1].entries]
+
+    def d(m):
+        def ev(t): return m.eval(t, model_completion=True) if m is not None else z3.simplify(t)
+        return {'kind': 'Array', 'arr': [val_to_json(vm, x, m) for x in items], 'dict': [[key_to_json(vm, k, ev), val_to_json(vm, x, m)] for k, x in ents]}
+    return d
